@@ -70,7 +70,7 @@ func VerifH_C08_mutators() {
 		verifAssert(false, "setup")
 		return
 	}
-	op := verifChoose(8)
+	op := verifChoose(9)
 	var want []verifSlot
 	var ret verifSlot // has=false: undefined
 	retIsArray := false
@@ -110,6 +110,10 @@ func VerifH_C08_mutators() {
 	case 6:
 		script = "var r = a.map(function (v) { return v })"
 		want = append([]verifSlot{}, cur...)
+	case 8: // no argument at all: nothing is removed
+		script = "var r = a.splice(); r = r.length"
+		want = append([]verifSlot{}, cur...)
+		ret = verifSlot{true, 0}
 	case 7:
 		script = "var r = a.splice(0, a.length)"
 		want = []verifSlot{}
